@@ -34,7 +34,7 @@ AREA = os.path.join(SPEC, "discovery")
 TRS = ("ip", "coap", "ble")
 # pairing situations of an id (Discovery.tla: PSituations)
 SITUATIONS = ["none"] + [s + a + z for s in ("cached", "nocache") for a in ("", "-after") for z in ("", "-shut")]
-ABSENT, BAD, ODD = -1, -2, -3
+ABSENT, BAD, ODD, NOVAL, EMPTY = -1, -2, -3, -4, -5
 
 
 def _cfg(tmp, name, subst=(), out=None):
@@ -69,19 +69,23 @@ def _fuzz_class(rng, tr, world, idl):
     bytes are then drawn inside that class"""
     from harness import c19_driver as D
     if tr != "ble":
-        cls = {"kind": "mdns", "idc": rng.choice(["absent", "lower", "upper", "upper"]), "kc": rng.choice(["lower", "upper"]),
-               "av": rng.randrange(10),
+        cls = {"kind": "mdns", "idc": rng.choice(["absent", "lower", "lower", "upper", "upper", "upper", "noval", "empty"]), "kc": rng.choice(["lower", "upper"]),
+               "av": rng.randrange(10), "xk": rng.choice(["none", "none", "md-noval", "pv-noval", "uk-noval", "uk-empty", "md-empty"]),
                "addrs": [rng.choice(["v4", "v6", "ll4", "ll6", "un4", "un6"]) for _ in range(rng.randrange(0, 5))]}
         raw = {}
         for f in ("c", "s", "sf", "ff", "ci"):
-            k = rng.choice(["n", "n", "n", "absent", "bad", "odd"])
+            k = rng.choice(["n", "n", "n", "n", "absent", "bad", "odd", "noval", "empty"])
             if k == "n":
                 cls[f] = rng.choice([0, 1, rng.randrange(256), rng.randrange(70000), 2 ** 31 - 1])
             elif k == "absent":
                 cls[f] = ABSENT
+            elif k == "noval":
+                cls[f] = NOVAL
+            elif k == "empty":
+                cls[f] = EMPTY
             elif k == "bad":
                 cls[f] = BAD
-                raw[f] = rng.choice(["abc", "", "none", "#", "é", "c#"])
+                raw[f] = rng.choice(["abc", "none", "#", "é", "c#"])
             else:
                 cls[f] = ODD
                 raw[f] = rng.choice([" 5", "5 ", "+7", "-3", "1_0", "٣", "1.5", "0x10", "99999999999999999999", "1e3", "-0"])
@@ -139,7 +143,14 @@ def _parse_bulk(args):
     w = D.World(pm, tag=rid)
     try:
         for k, (tr, idl, cls) in enumerate(items):
-            w.adv(tr, idl, dict(cls))
+            odd_txt = cls.get("kind") == "mdns" and (cls.get("xk", "none") != "none" or cls["idc"] in ("noval", "empty")
+                                                     or any(cls[f] in (NOVAL, EMPTY) for f in ("c", "s", "sf", "ff", "ci")))
+            if odd_txt and cls["addrs"] and k % 2 == 0:
+                # the path zeroconf takes: browser callback, resolve timer, record re-read from the DNS cache
+                w.adv(tr, idl, dict(cls), via="browser")
+                w.run_to(w.now_ms() + 750)
+            else:
+                w.adv(tr, idl, dict(cls))
         w.end_bulk()
         return w.record(rid, "parse")
     finally:
@@ -271,21 +282,32 @@ def _dump(path, recs):
 
 def _validate(ctx, tmp, recs, label):
     bad = []
-    chunk = 4000
-    for off in range(0, len(recs), chunk):
+    # the batches are independent: validate them in a few TLC processes side by side (each single-threaded, as the
+    # TLCSet registers of the trace module require); results are collected in batch order
+    nproc = 4
+    chunk = max(1, min(4000, -(-len(recs) // nproc)))
+    offs = list(range(0, len(recs), chunk))
+
+    def one(off):
         part = recs[off:off + chunk]
-        tf = os.path.join(tmp, f"trace_{off}.ndjson")
+        tf = os.path.join(tmp, f"trace_{label[:8].replace(' ', '_')}_{off}.ndjson")
         _dump(tf, part)
-        res = ctx.tlc("discovery/Discovery_Trace", "Discovery_Trace.cfg", env={"TRACE_FILE": tf, "DBG_L": "0"}, workers=1,
-                      dfs_queue=True, coverage=False, require_cover=False, expect_violation=True, timeout=1500,
-                      label=f"{label} ({len(part)} executions)")
+        try:
+            res = ctx.tlc("discovery/Discovery_Trace", "Discovery_Trace.cfg", env={"TRACE_FILE": tf, "DBG_L": "0"}, workers=1,
+                          dfs_queue=True, coverage=False, require_cover=False, expect_violation=True, timeout=1500,
+                          label=f"{label} ({len(part)} executions)")
+        finally:
+            os.unlink(tf)
         if not res.ok:
             raise MachineryError(f"trace validation failed: {res.violation['kind']}\n{res.stdout[-3000:]}")
-        rej = [(int(a), int(b)) for a, b in re.findall(r'<<"REJECTED", (\d+), (\d+)>>', res.stdout)]
+        return part, [(int(a), int(b)) for a, b in re.findall(r'<<"REJECTED", (\d+), (\d+)>>', res.stdout)]
+    from concurrent.futures import ThreadPoolExecutor
+    with ThreadPoolExecutor(max_workers=nproc) as ex:
+        results = list(ex.map(one, offs))
+    for part, rej in results:
         for tid, maxl in rej:
             bad.append([part[tid - 1], maxl, None])
         ctx.trace_ok(len(part) - len(rej))
-        os.unlink(tf)
     # report one execution of every kind of rejection first (ordering only; the verdict is TLC's)
     def kind(item):
         r, pos = item[0], item[1]
